@@ -249,11 +249,13 @@ Definition reset_all : bool :=
             (two (snd (fst l))))
     (sleaves defaults_schema).
 
-(* outside the DEFAULTS literal reset() restores NOTHING: every such leaf keeps a value assigned to it *)
+(* outside the DEFAULTS literal reset() restores NOTHING: every such leaf keeps a value (other than the one
+   it had) assigned to it *)
 Definition reset_none_outside : bool :=
   forallb (fun l =>
     in_literal (fst (fst l)) ||
-    forallb (fun v => negb (reset_holds (fst (fst l)) v NAttr)) (two (snd (fst l))))
+    forallb (fun v => leaf_is defaults_schema pristine (fst (fst l)) (Some v) ||
+                      negb (reset_holds (fst (fst l)) v NAttr)) (two (snd (fst l))))
     (sleaves defaults_schema).
 
 Definition sv (k : vkind) (i : nat) : val := nth (i mod List.length (sample_vals k)) (sample_vals k) (VInt 0).
